@@ -465,3 +465,8 @@ pub trait ClientSocket {
     /// Send a packet on the event socket, waiting for a timestamp.
     fn send_event(&mut self, buf: &[u8]) -> impl Future<Output = Result<Timestamp, Self::Error>>;
 }
+
+// verification hook (guard: cfg(kani)); contract harnesses live outside the repository
+#[cfg(kani)]
+#[path = "/verif/kani/statime_csptp/source.rs"]
+mod verif;
